@@ -554,6 +554,17 @@ func c36Run(t *testing.T, ci any, trace bool) *verifsim.Result {
 							}
 						}
 					}
+					// a cancel takes the want off the peer's current want-list, whatever else
+					// the message carries (the peer's messages are delivered one after the
+					// other and only they add wants for it)
+					for _, w := range after {
+						if b, ok := index[w.Cid.KeyString()]; ok {
+							if en, asked := effective[b]; asked && en.Cancel {
+								s.Failf("cancelled-want-kept", "after message #%d of peer %d (%s), which cancels block #%d, the peer's queued want-list still has it", mi, pi, c36Describe(msg, index), b)
+								return
+							}
+						}
+					}
 					if len(after) > c.Limit {
 						s.Failf("wantlist-over-limit", "after message #%d of peer %d its queued want-list has %d entries, the limit is %d", mi, pi, len(after), c.Limit)
 						return
